@@ -12,7 +12,8 @@ ops
       mut  : none | replay | flipbody <permille> <bit> | trunc <len> | settype t | setver v | setsub s |
              setres v | setidx <B|R|X|rB|relay|zero|unknown> | ctr <delta>
   recverr <idxsym> <src>                                       -> digest difference at A
-answer: `tun=<n> out=<t/s>node,…> del=<peers> roam=<peers> in=<peers> win=<peers> rs=<peers> lh=<0|1> pend=<0|1> used=<n>`
+answer: `tun=<n> out=<t/s>node,…> del=<peers> roam=<peers> in=<peers> win=<peers> rs=<peers> lh=<0|1> pend=<0|1> used=<n> seen=<0|1>`
+        (`seen`: the datagram handed to the relay contained the end-to-end plaintext)
 
 The AEAD oracle is instantiated *by construction*: a level authenticates iff its header and body are
 exactly what the tunnel's peer sealed (no mutation touched it), it arrives on that tunnel's index, and it
@@ -97,7 +98,7 @@ def render (s : St) (rx sender : Nat) (src : String) (effs : List Effect) (rsPee
   let inn := inn.filter (fun p => !del.contains p)
   let used := (effs.filter (fun e => match e with | .relayUsed _ => true | .forward _ _ => true | _ => false)).length
   let lh := !roam.isEmpty || !del.isEmpty
-  s!"tun={tun} out={setStr (sortStr out)} del={setStr (sortStr (dedup del))} roam={setStr (sortStr roam)} in={setStr (sortStr (dedup inn))} win={setStr (sortStr (dedup inn))} rs={setStr rsPeers} lh={boolStr lh} pend=0 used={used}"
+  s!"tun={tun} out={setStr (sortStr out)} del={setStr (sortStr (dedup del))} roam={setStr (sortStr roam)} in={setStr (sortStr (dedup inn))} win={setStr (sortStr (dedup inn))} rs={setStr rsPeers} lh={boolStr lh} pend=0 used={used} seen=0"
 
 /-- lookups of one level at receiver `rx`. `own` = the peer whose tunnel sealed this level. -/
 def mkLook (s : St) (rx : Nat) (relayedLevel : Bool) (src : String) (h base : SymHdr) (own : Nat)
@@ -159,6 +160,7 @@ def noEffectVerdict (impl : String) (allowRecvErrReply : Bool) : String :=
   else if get "in" != "-" || get "win" != "-" || get "used" != "0" then "bad unauth-liveness"
   else if get "rs" != "-" then "bad unauth-relay-state"
   else if get "lh" != "0" || get "pend" != "0" then "bad unauth-lighthouse-state"
+  else if get "seen" != "0" then "bad relay-saw-plaintext"
   else if get "out" == "-" then "ok"
   else if allowRecvErrReply && ((get "out").splitOn ",").all (·.startsWith "2/0>") then "ok"
   else "bad unauth-reply-sent"
